@@ -74,16 +74,8 @@ abbrev Heap := List Obj
 /-- fuel for graph traversals: block → tuple → tx → tuple → txin → outpoint is 6 objects deep -/
 def D : Nat := 8
 
-/-- `List.mapM` in `Option`, written out so that it unfolds definitionally -/
-def mapO {α β : Type} (f : α → Option β) : List α → Option (List β)
-  | [] => some []
-  | a :: as =>
-    match f a with
-    | none => none
-    | some b =>
-      match mapO f as with
-      | none => none
-      | some bs => some (b :: bs)
+/-- a transaction is 4 objects deep; `CBlock.__init__` snapshots the transactions two levels below the block -/
+def txFuel : Nat := 6
 
 /-! ### reading the object graph -/
 
@@ -498,7 +490,7 @@ def step (s : St) : Op → St × Out
           | .ok b =>
             -- build_witness_merkle_tree_from_txs: `tx.GetHash()` memoises on the immutable ones
             let h1 := fillHashes s.heap addrs
-            match mapO (planClone false D h1) addrs with
+            match mapO (planClone false txFuel h1) addrs with
             | none => (s.skip, .badRef)
             | some plans =>
               let (h2, a) := allocPlan h1 (.node false (.block b.hdr) [.node false (.seq .txs) plans])
